@@ -9,6 +9,7 @@ use proptest::collection::vec;
 use proptest::prelude::*;
 use serde::{Deserialize, Serialize};
 use serde_json::Value;
+use std::collections::BTreeMap;
 
 #[derive(Clone, Debug, Serialize, Deserialize)]
 pub enum Node {
@@ -347,6 +348,68 @@ pub fn apply_malformations(b: &mut Built, muts: &[Malform]) -> Vec<&'static str>
     labels
 }
 
+/// number of distinct paths from the page-tree root to every object, following /Kids arrays (direct or behind
+/// references) through dictionaries of any type; None when a cycle is in reach or the numbers explode
+fn kids_paths(g: &crate::props::entries::GraphSpec) -> Option<BTreeMap<u32, u64>> {
+    let objs: BTreeMap<u32, &AObj> = g.objects.iter().map(|(n, _, o)| (*n, o)).collect();
+    let deref = |o: &AObj| -> Option<(Option<u32>, AObj)> {
+        let mut cur = o.clone();
+        let mut id = None;
+        for _ in 0..40 {
+            match cur {
+                AObj::Ref(n, _) => {
+                    id = Some(n);
+                    cur = (*objs.get(&n)?).clone();
+                }
+                other => return Some((id, other)),
+            }
+        }
+        None
+    };
+    let root = g.trailer.iter().find(|(k, _)| k.0 == b"Root").map(|(_, v)| v.clone())?;
+    let (_, cat) = deref(&root)?;
+    let (root_id, _) = deref(cat.get("Pages")?)?;
+    let root_id = root_id?;
+    let kids_of = |n: u32| -> Vec<u32> {
+        let Some(AObj::Dict(d)) = objs.get(&n).map(|o| (*o).clone()) else { return vec![] };
+        let Some(k) = d.iter().rev().find(|(k, _)| k.0 == b"Kids").map(|(_, v)| v.clone()) else { return vec![] };
+        let Some((_, AObj::Array(a))) = deref(&k) else { return vec![] };
+        a.iter().filter_map(|x| deref(x).and_then(|(id, o)| if matches!(o, AObj::Dict(_)) { id } else { None })).collect()
+    };
+    // cycle check + topological accumulation by DFS with memo
+    fn visit(n: u32, kids_of: &dyn Fn(u32) -> Vec<u32>, state: &mut BTreeMap<u32, u8>, order: &mut Vec<u32>) -> bool {
+        match state.get(&n) {
+            Some(1) => return false,
+            Some(2) => return true,
+            _ => {}
+        }
+        state.insert(n, 1);
+        for k in kids_of(n) {
+            if !visit(k, kids_of, state, order) {
+                return false;
+            }
+        }
+        state.insert(n, 2);
+        order.push(n);
+        true
+    }
+    let mut state = BTreeMap::new();
+    let mut order = vec![];
+    if !visit(root_id, &kids_of, &mut state, &mut order) {
+        return None;
+    }
+    let mut paths: BTreeMap<u32, u64> = BTreeMap::new();
+    paths.insert(root_id, 1);
+    for n in order.iter().rev() {
+        let p = paths.get(n).copied().unwrap_or(0);
+        for k in kids_of(*n) {
+            let e = paths.entry(k).or_insert(0);
+            *e = e.checked_add(p)?;
+        }
+    }
+    Some(paths)
+}
+
 pub fn check_malformed(case: &MalformedCase) -> Verdict {
     let mut rep = CaseReport::new();
     let tree = match &case.tree.root {
@@ -366,6 +429,24 @@ pub fn check_malformed(case: &MalformedCase) -> Verdict {
         }
         if summary.starts_with("NUMBERING") {
             return Err(viol!("numbering-wrong", "get_pages on a malformed tree is not numbered 1..n: {}", summary));
+        }
+        // "exactly the leaf page objects": a page is yielded at most once per path that leads from the root to it through
+        // /Kids arrays (shared kids have several paths; with a kid cycle in reach the bound is not defined and not checked)
+        if let Some(list) = summary.split(" ids=").nth(1) {
+            let yielded: Vec<u32> = list.split(',').filter_map(|x| x.parse().ok()).collect();
+            if let Some(paths) = kids_paths(&b.graph) {
+                let mut count: BTreeMap<u32, u64> = BTreeMap::new();
+                for y in &yielded {
+                    *count.entry(*y).or_insert(0) += 1;
+                }
+                for (id, c) in count {
+                    let p = paths.get(&id).copied().unwrap_or(0);
+                    if c > p {
+                        return Err(viol!("order-differs", "enumeration of a malformed tree yields page {} {} times, but only {} path(s) lead to it from the root through /Kids; yielded {:?}", id, c, p, crate::engine::truncate(&format!("{:?}", yielded), 300)));
+                    }
+                }
+                rep.label("multiplicity-bound-checked");
+            }
         }
     }
     for l in &labels {
